@@ -662,15 +662,29 @@ def sweep(scn: dict, pairs: bool = False, cores: int = 16) -> dict:
     res.update(n_calls=n, trace_calls=_fmt_calls(tr["calls"]))
     jobs: list[tuple] = [("fail", k, e, None, None) for k in range(n) for e in ERRNOS]
     jobs += [("kill", k, None, None, w) for k in range(n) for w in ("before", "after")]
-    if pairs:  # after the first fault the sequence differs from the trace: allow k2 a little past its end
-        jobs += [("fail", k1, e, k2, None) for k1 in range(n) for k2 in range(k1 + 1, n + 3) for e in ERRNOS]
     done = [(("trace", None, None, None, None), evaluate(scn, trace, tr, "trace"))]
-    if cores <= 1 or not jobs:
-        _winit(scn, trace)
-        done += [_wjob(j) for j in jobs]
-    else:
-        with mp.get_context("fork").Pool(min(cores, len(jobs)), initializer=_winit, initargs=(scn, trace)) as pool:
-            done += list(pool.imap_unordered(_wjob, jobs, chunksize=4))
+
+    def run_jobs(js):
+        if not js:
+            return []
+        if cores <= 1:
+            _winit(scn, trace)
+            return [_wjob(j) for j in js]
+        with mp.get_context("fork").Pool(min(cores, len(js)), initializer=_winit, initargs=(scn, trace)) as pool:
+            return list(pool.imap_unordered(_wjob, js, chunksize=4))
+
+    singles = run_jobs(jobs)
+    done += singles
+    if pairs:
+        # second fault: at every call the run made AFTER the first fault - that sequence differs from the trace (error
+        # paths, fall-backs), so its length is taken from the single-fault run itself
+        pj = []
+        for (mode, k1, e, _, _), ev in singles:
+            if mode != "fail":
+                continue
+            m = len(ev.get("calls") or [])
+            pj += [("fail", k1, e, k2, None) for k2 in range(k1 + 1, max(m, k1 + 1))]
+        done += run_jobs(pj)
     res["evaluations"] = len(done)
     order = {"trace": 0, "fail": 1, "kill": 2}
     for (mode, k, err, k2, when), ev in sorted(done, key=lambda d: (order[d[0][0]], d[0][1] or 0, d[0][3] or 0, str(d[0][2]), str(d[0][4]))):
